@@ -299,6 +299,17 @@ func (c *Ctx) ruleEntities() {
 		}
 		c.R.Floor(rule, "html.EntitiesMap entries", len(m.Entries), 1000)
 	}
+	if hp := c.P.Pkg("html"); hp != nil && hp.Types.Scope().Lookup("AttrRevEntitiesMap") != nil {
+		if m, _ := c.tableMap(rule, "html", "AttrRevEntitiesMap"); m != nil {
+			for _, e := range m.Entries {
+				k, _ := e.Key.(int64)
+				v, _ := e.Value.([]byte)
+				dec := stdhtml.UnescapeString(string(v))
+				c.R.Check(dec == string(rune(k)) && len(v) > 0 && v[len(v)-1] == ';', rule, fmt.Sprintf("html.AttrRevEntitiesMap[%q]", rune(k)), c.pos(e.KeyX),
+					fmt.Sprintf("%q decodes to %q", v, dec), fmt.Sprintf("%q decodes to %q, not to %q", v, dec, rune(k)))
+			}
+		}
+	}
 	for _, rel := range []string{"html", "xml"} {
 		if m, _ := c.tableMap(rule, rel, "TextRevEntitiesMap"); m != nil {
 			for _, e := range m.Entries {
